@@ -182,7 +182,9 @@ func (d *Document) writeJSONValue(buf *bytes.Buffer, value Value) error {
 				variableName := d.Input.ByteSliceString(d.VariableValues[objFieldValue.Ref].Name)
 				_, dataType, _, _ := jsonparser.Get(d.Input.Variables, variableName)
 				if dataType == jsonparser.NotExist {
-					continue
+					if _, hasDefault := d.variableDefaultValueByName(variableName); !hasDefault {
+						continue
+					}
 				}
 			}
 
@@ -203,8 +205,12 @@ func (d *Document) writeJSONValue(buf *bytes.Buffer, value Value) error {
 		variableName := d.Input.ByteSliceString(d.VariableValues[value.Ref].Name)
 		variableValue, dataType, _, err := jsonparser.Get(d.Input.Variables, variableName)
 		if err != nil {
+			if defaultValue, hasDefault := d.variableDefaultValueByName(variableName); hasDefault {
+				// A missing variable takes the default value of its definition.
+				return d.writeJSONValue(buf, defaultValue)
+			}
 			buf.Write(literal.NULL)
-			return nil //nolint:nilerr // A missing variable is rendered as GraphQL null.
+			return nil //nolint:nilerr // A missing variable without default is rendered as GraphQL null.
 		}
 		if dataType == jsonparser.String {
 			buf.WriteByte('"')
@@ -217,6 +223,26 @@ func (d *Document) writeJSONValue(buf *bytes.Buffer, value Value) error {
 		return fmt.Errorf("ValueToJSON: not implemented for kind: %s", value.Kind.String())
 	}
 	return nil
+}
+
+// variableDefaultValueByName returns the default value of the variable definition with the given
+// name on the operations of the document, if it defines one.
+func (d *Document) variableDefaultValueByName(name string) (Value, bool) {
+	for i := range d.RootNodes {
+		if d.RootNodes[i].Kind != NodeKindOperationDefinition {
+			continue
+		}
+		operation := d.OperationDefinitions[d.RootNodes[i].Ref]
+		if !operation.HasVariableDefinitions {
+			continue
+		}
+		for _, ref := range operation.VariableDefinitions.Refs {
+			if d.VariableDefinitions[ref].DefaultValue.IsDefined && d.VariableDefinitionNameString(ref) == name {
+				return d.VariableDefinitions[ref].DefaultValue.Value, true
+			}
+		}
+	}
+	return Value{}, false
 }
 
 func (d *Document) ValueToJSON(value Value) ([]byte, error) {
